@@ -39,6 +39,9 @@ CHECKS = {
   'C12': dict(category='other', technique='symbolic execution of the traced jaxpr under two Scale objects + QF_LRA monomial-abstraction queries',
               text='The same SI problem built under two unit scales (default, atmospheric, SI, odd, seeded decades) gives SI-equal tendencies and Euler step for ALL states in the box: dry and moist primitive equations, shallow water.',
               design='§3 C12'),
+  'C14': dict(category='other', technique='symbolic execution of the traced combinators with uninterpreted step/filter/scan functions (z3 EUF terms) + QF_UF/QF_UFNRA equivalence queries, including reverse-mode gradient IRs',
+              text='trajectory_from_step, repeated, step_with_filters, nested_checkpoint_scan (carries, non-scalar stacked outputs and gradients), accumulate_repeated and DFI are equal to their sequential definitions for EVERY step/filter function and all data, for each enumerated split / ordered factorisation.',
+              design='§3 C14'),
   'C13': dict(category='other', technique='symbolic execution of the traced jaxpr + QF_LRA queries (monomial abstraction for bilinear clauses)',
               text='Bounded symbolic verification of the sigma calculus identities for ALL column data and vertical velocities on each enumerated level set (even, dyadic uneven, seeded random), axis and shape.',
               design='§3 C13'),
